@@ -390,6 +390,247 @@ def _read_terms(t):
     return contains_term(t, lambda x: x[0] == 'ev' and x[1] in ('read', 'sqlres', 'list'))
 
 
+def _keys_iterations(fnode, keysname):
+    """(node, kind, stmt) for every loop / comprehension of fnode that iterates over the keys parameter.
+    kind: 'self-nodefault' | 'self-default' | 'local-nodefault' | 'local-default' | 'member-raise' | 'other'"""
+    parents = {}
+    for n in ast.walk(fnode):
+        for ch in ast.iter_child_nodes(n):
+            parents[ch] = n
+    selfname = fnode.args.args[0].arg if fnode.args.args else 'self'
+    vararg = fnode.args.vararg.arg if fnode.args.vararg else None
+
+    def stmt_of(n):
+        while n in parents and not isinstance(n, ast.stmt):
+            n = parents[n]
+        return n
+
+    def classify_body(elts, var):
+        kinds = []
+        for e in elts:
+            for c in ast.walk(e):
+                if isinstance(c, ast.Call) and isinstance(c.func, ast.Attribute) and c.func.attr in ('pop', '__delitem__') and c.args \
+                        and isinstance(c.args[0], ast.Name) and c.args[0].id == var:
+                    recv = c.func.value
+                    on_self = isinstance(recv, ast.Name) and recv.id == selfname
+                    has_default = len(c.args) > 1 or bool(c.keywords)
+                    kinds.append(('self' if on_self else 'local') + ('-default' if has_default and not (len(c.args) == 2 and isinstance(c.args[1], ast.Starred)) else
+                                                                   ('-maybe' if has_default else '-nodefault')))
+                elif isinstance(c, ast.Delete):
+                    for t in c.targets:
+                        if isinstance(t, ast.Subscript) and isinstance(t.value, ast.Name):
+                            kinds.append(('self' if t.value.id == selfname else 'local') + '-nodefault')
+                elif isinstance(c, ast.Subscript) and isinstance(c.ctx, ast.Load) and isinstance(c.slice, ast.Name) and c.slice.id == var \
+                        and isinstance(c.value, ast.Name) and c.value.id != selfname:
+                    kinds.append('member-raise')     # a lookup, like a presence test, does not consume the key
+                elif isinstance(c, ast.Raise) and c.exc is not None and 'KeyError' in unparse(c.exc):
+                    kinds.append('member-raise')
+        return kinds
+
+    out = []
+    for n in ast.walk(fnode):
+        gens = []
+        if isinstance(n, (ast.ListComp, ast.SetComp, ast.GeneratorExp)):
+            gens = [(g, [n.elt]) for g in n.generators]
+        elif isinstance(n, ast.DictComp):
+            gens = [(g, [n.key, n.value]) for g in n.generators]
+        elif isinstance(n, ast.For):
+            gens = [(n, n.body)]
+        for g, body in gens:
+            it = g.iter
+            if not (isinstance(it, ast.Name) and it.id == keysname):
+                continue
+            tgt = g.target
+            if not isinstance(tgt, ast.Name):
+                continue
+            kinds = classify_body(body, tgt.id) or ['other']
+            # `pop(k, *value)`: a default is present exactly when the enclosing branch established that value is non-empty
+            st = stmt_of(n)
+            guarded = False
+            cur = st
+            while cur in parents:
+                par = parents[cur]
+                if isinstance(par, ast.If) and cur in par.body and vararg and vararg in [x.id for x in ast.walk(par.test) if isinstance(x, ast.Name)]:
+                    guarded = True
+                cur = par
+            kinds = [k.replace('-maybe', '-default' if guarded else '-nodefault') for k in kinds]
+            out.append((n, kinds, st))
+    return out, parents
+
+
+def _precedes(a, b, parents, vararg=None):
+    """statement a is executed before statement b on every path reaching b (a is an earlier sibling of b or of one of b's ancestors)"""
+    cur = b
+    while cur in parents:
+        par = parents[cur]
+        for field in ('body', 'orelse', 'finalbody'):
+            blk = getattr(par, field, None)
+            if isinstance(blk, list) and cur in blk:
+                i = blk.index(cur)
+                if a in blk[:i]:
+                    return True
+                # ... or sits in the branch of an earlier `if not len(value):` / `if not value:` (the no-default case, the only one that can fail)
+                for e in blk[:i]:
+                    if isinstance(e, ast.If) and vararg and vararg in [x.id for x in ast.walk(e.test) if isinstance(x, ast.Name)] \
+                            and any(x is a for blk2 in (e.body, e.orelse) for y in blk2 for x in ast.walk(y)):
+                        return True
+        cur = par
+    return False
+
+
+def rule_A_POPKEYS(ctx, repo):
+    """A-POPKEYS (failure atomicity of the one multi-key mutator): popkeys without a default either removes all requested keys or raises KeyError
+    and removes none.  Every loop that pops the requested keys from the archive itself without a default is preceded by a dry run over the same keys
+    on a copy (or a presence test that raises), so a missing key is reported before anything was removed."""
+    owners = []
+    ab = repo.mod('_abc').classes.get('archive')
+    if ab is not None and 'popkeys' in ab.methods:
+        owners.append(ab)
+    m = repo.mod('_archives')
+    for ci in m.classes.values():
+        if 'popkeys' in getattr(ci, 'own_methods', ci.methods):
+            owners.append(ci)
+    n = 0
+    for ci in owners:
+        fi = (getattr(ci, 'own_methods', None) or ci.methods)['popkeys']
+        fnode = fi.node
+        a = fnode.args
+        if len(a.args) < 2:
+            continue
+        n += 1
+        its, parents = _keys_iterations(fnode, a.args[1].arg)
+        vararg = a.vararg.arg if a.vararg else None
+        # the dry run removes each requested key from a copy: a presence test alone accepts a key that is listed twice, and the second removal then fails
+        # after the first one happened
+        validators = [st for (_, kinds, st) in its if 'local-nodefault' in kinds]
+        weak = [st for (_, kinds, st) in its if 'member-raise' in kinds and 'local-nodefault' not in kinds]
+        # a call of a helper on the keys (self._check(keys)) before the loop is taken as validation (not analysed further)
+        helpers = [x for x in ast.walk(fnode) if isinstance(x, ast.Expr) and isinstance(x.value, ast.Call)
+                   and any(isinstance(y, ast.Name) and y.id == a.args[1].arg for y in x.value.args)]
+        for node, kinds, st in its:
+            if 'self-nodefault' not in kinds:
+                continue
+            ok = any(_precedes(v, st, parents, vararg) for v in validators + helpers if v is not st)
+            ctx.ob('A-POPKEYS', '%s.popkeys: removal loop at line %d has a dry run before it' % (ci.label, node.lineno), ok)
+            if not ok:
+                only_weak = any(_precedes(v, st, parents, vararg) for v in weak if v is not st)
+                ctx.fail('A-POPKEYS', mq(ci, 'popkeys'), 'presence test instead of a dry run' if only_weak else 'removes keys one by one with no dry run',
+                         '%s.popkeys pops the requested keys from the archive itself, without a default, in a loop that no validation of the whole request '
+                         'precedes: when a later key is missing (or a key is listed twice) KeyError is raised after the earlier keys were already removed - a failed '
+                         'operation changes the contents' % ci.label, wh(ci, node.lineno))
+        ctx.ob('A-POPKEYS', '%s.popkeys examined (%d iterations over the keys)' % (ci.label, len(its)), True)
+    if n < 5:
+        raise AnalysisError('instance count below confirmed minimum: %d popkeys implementations (< 5)' % n)
+
+
+def _ret_modules(fnode, imports, resolve, depth=0):
+    """per result position, the serializer modules a helper may return (`return json, 'r'` / `return json if ... else dill`)"""
+    pos = {}
+    for n in ast.walk(fnode):
+        if not isinstance(n, ast.Return) or n.value is None:
+            continue
+        vals = n.value.elts if isinstance(n.value, ast.Tuple) else [n.value]
+        for i, v in enumerate(vals):
+            for x in ([v.body, v.orelse] if isinstance(v, ast.IfExp) else [v]):
+                if isinstance(x, ast.Name) and x.id in imports:
+                    pos.setdefault(i, set()).add(imports[x.id])
+                elif isinstance(x, ast.Call) and depth < 2:
+                    h = resolve(x)
+                    if h is not None:
+                        for k, ms in _ret_modules(h, imports, resolve, depth + 1).items():
+                            if k == 0:
+                                pos.setdefault(i, set()).update(ms)
+    return pos
+
+
+def _serializer_modules(fnode, imports, resolve=lambda call: None):
+    """{'read': {module: line}, 'write': {module: line}} for the X.load(s) / X.dump(s) calls of one function; X is an imported module, a local bound to
+    one, or what a helper of the module / class returns"""
+    local = {}
+
+    def of_expr(x):
+        out = set()
+        for y in ([x.body, x.orelse] if isinstance(x, ast.IfExp) else [x]):
+            if isinstance(y, ast.Name) and y.id in imports and y.id not in local:
+                out.add(imports[y.id])
+            elif isinstance(y, ast.Name) and y.id in local:
+                out |= local[y.id]
+            elif isinstance(y, ast.Call):
+                h = resolve(y)
+                if h is not None:
+                    out |= _ret_modules(h, imports, resolve).get(0, set())
+        return out
+
+    def bind(t, v):
+        if isinstance(t, ast.Name):
+            local.setdefault(t.id, set()).update(of_expr(v))
+        elif isinstance(t, (ast.Tuple, ast.List)) and isinstance(v, (ast.Tuple, ast.List)) and len(t.elts) == len(v.elts):
+            for a, b in zip(t.elts, v.elts):
+                bind(a, b)
+        elif isinstance(t, (ast.Tuple, ast.List)) and isinstance(v, ast.Call):
+            h = resolve(v)
+            if h is not None:
+                pos = _ret_modules(h, imports, resolve)
+                for i, a in enumerate(t.elts):
+                    if isinstance(a, ast.Name):
+                        local.setdefault(a.id, set()).update(pos.get(i, set()))
+    assigns = sorted([n for n in ast.walk(fnode) if isinstance(n, ast.Assign)], key=lambda n: n.lineno)
+    for n in assigns:
+        for t in n.targets:
+            bind(t, n.value)
+    out = {'read': {}, 'write': {}}
+    for n in ast.walk(fnode):
+        if isinstance(n, ast.Call) and isinstance(n.func, ast.Attribute) and n.func.attr in ('load', 'loads', 'dump', 'dumps'):
+            R = n.func.value
+            if isinstance(R, ast.Name) and R.id in local:
+                mods = local[R.id]
+            else:
+                mods = of_expr(R) if isinstance(R, (ast.Name, ast.Call, ast.IfExp)) else set()
+            if not mods:
+                continue
+            side = 'read' if n.func.attr.startswith('load') else 'write'
+            for mname in mods:
+                out[side].setdefault(mname.lstrip('.').split('.')[-1], n.lineno)
+    return out
+
+
+def rule_A_CODEC(ctx, repo):
+    """A-CODEC (reader and writer agree): within one archive class, the serializer modules whose load/loads decode the stored bytes are the ones whose
+    dump/dumps encoded them.  dill writes pickles that only dill can read back (functions, lambdas and classes of __main__ by value), json text is not a
+    pickle: a reader from another family fails - and the archives turn a failed read into "no entry" / an empty archive."""
+    m = repo.mod('_archives')
+    n = 0
+    for ci in archive_classes(repo):
+        rd, wr = {}, {}
+        def resolve(call, ci=ci):
+            f = call.func
+            if isinstance(f, ast.Name) and f.id in m.functions:
+                return m.functions[f.id].node
+            if isinstance(f, ast.Attribute) and isinstance(f.value, ast.Name) and f.value.id == 'self' and f.attr in ci.methods:
+                return ci.methods[f.attr].node
+            return None
+        for name, fi in ci.methods.items():
+            sm = _serializer_modules(fi.node, m.imports, resolve)
+            for k, ln in sm['read'].items():
+                rd.setdefault(k, (name, ln))
+            for k, ln in sm['write'].items():
+                wr.setdefault(k, (name, ln))
+        if not rd or not wr:
+            continue
+        n += 1
+        ok = set(rd) == set(wr)
+        ctx.ob('A-CODEC', '%s: readers {%s} = writers {%s}' % (ci.label, ', '.join(sorted(rd)), ', '.join(sorted(wr))), ok)
+        if not ok:
+            odd = sorted(set(rd) ^ set(wr))
+            src = rd.get(odd[0]) or wr.get(odd[0])
+            ctx.fail('A-CODEC', mq(ci, src[0]), 'reads with {%s}, writes with {%s}' % (', '.join(sorted(rd)), ', '.join(sorted(wr))),
+                     '%s decodes stored entries with %s but encodes them with %s: what one module writes the other cannot always read (dill pickles functions, lambdas '
+                     'and classes of __main__ by value, which only dill can load) - the read fails, the archive reports the entry as missing or itself as empty, and the '
+                     'next write makes the loss permanent' % (ci.label, ', '.join(sorted(rd)), ', '.join(sorted(wr))), wh(ci, src[1]))
+    if n < 3:
+        raise AnalysisError('instance count below confirmed minimum: %d archive classes with serializer calls on both sides (< 3)' % n)
+
+
 def rule_A_KEYERR_FOUND(ctx, repo, cache):
     """KeyError means "nothing stored": a path of __getitem__ / pop that found something in the store (the emptiness test of what was read
     came out non-empty, and nothing read came out empty or failed) must not end in KeyError - a stored None / 0 / '' is a value, not a miss."""
